@@ -104,4 +104,59 @@ theorem feasible_along (c : Cfg) (D : Dist) (hm : 0 ≤ c.maxCap) (s : State) (a
     Feasible c.maxCap (playS c D s (as.take k)) :=
   feasible_play c D hm _ s hf (allLegal_take c D as s k hal)
 
+/-! ### audit r4 #1: the support the code draws from -/
+
+/-- for `max_demand ≥ 1` what the code draws lies in the documented range -/
+theorem validUniformCode_sub (n : Nat) (m : Int) (cd : List (List Rat)) (dd : List Int) (h1 : 1 ≤ m)
+    (h : validUniformCode n m cd dd) : validUniform n m cd dd := by
+  obtain ⟨a, b, c, d⟩ := h
+  exact ⟨a, b, c, fun x hx => ⟨(d x hx).1, by have := (d x hx).2; omega⟩⟩
+
+/-- the documented support is EMPTY for `max_demand ≤ 0`: every theorem assuming `validUniform` / `validDraw` silently
+assumes `1 ≤ max_demand` -/
+theorem validUniform_pos (n : Nat) (m : Int) (cd : List (List Rat)) (dd : List Int) (h : validUniform n m cd dd) :
+    1 ≤ m := by
+  obtain ⟨_, h2, _, h4⟩ := h
+  cases dd with
+  | nil => simp at h2
+  | cons d ds => have := h4 d (by simp); omega
+
+theorem validDraw_pos (n : Nat) (m : Int) (cd : List (List Rat)) (dd : List Int) (h : validDraw n m cd dd) :
+    1 ≤ m := by
+  obtain ⟨_, h2, _, h4⟩ := h
+  cases dd with
+  | nil => simp at h2
+  | cons d ds => have := h4 d (by simp); omega
+
+/-- … while the support of the code is never empty -/
+theorem validUniformCode_inhabited (n : Nat) (m : Int) :
+    validUniformCode n m (List.replicate (n + 1) [0, 0]) (List.replicate (n + 1) 1) := by
+  refine ⟨by simp, by simp, ?_, ?_⟩
+  · intro p hp
+    rw [List.eq_of_mem_replicate hp]
+    exact ⟨rfl, by intro x hx; simp at hx; subst hx; decide⟩
+  · intro d hd
+    rw [List.eq_of_mem_replicate hd]
+    omega
+
+theorem generate_cert_code (n : Nat) (maxCap maxDemand : Int) (cd : List (List Rat)) (dd : List Int)
+    (h1 : 1 ≤ maxDemand) (hcon : maxDemand ≤ maxCap) (hd : validUniformCode n maxDemand cd dd) :
+    GenCert n maxCap maxDemand (generate n maxCap cd dd) ∧
+    (∀ d ∈ (generate n maxCap cd dd).demands.drop 1, d ≤ max 1 (maxDemand - 1)) := by
+  refine ⟨generate_cert n maxCap maxDemand cd dd hcon (validUniformCode_sub n maxDemand cd dd h1 hd), ?_⟩
+  intro d hdm
+  have hmem : d ∈ dd := by
+    have : (generate n maxCap cd dd).demands.drop 1 = dd.drop 1 := by
+      simp [generate]
+      cases dd with
+      | nil => simp [Jx.setWD, Jx.wrapIdx]
+      | cons x xs =>
+        have hx : (0 : Nat) < (x :: xs).length := by simp
+        have := Jx.setWD_nat (x :: xs) (0 : Int) hx
+        simp [DEPOT] at this ⊢
+        rw [this]; rfl
+    rw [this] at hdm
+    exact List.mem_of_mem_drop hdm
+  exact (hd.2.2.2 d hmem).2
+
 end CVRP
